@@ -152,6 +152,13 @@ func cmdCheck(repo, verif, prop, tier string, timeout int, verbose bool) int {
 	defer os.RemoveAll(dir)
 	solveAll(e, pr.ctxs, pr.obs, solveOpts{timeout: tierTimeout(tier, timeout), dir: dir, models: true, all: tier == "thorough"})
 
+	var scans []scanResult
+	if prop == "C17" {
+		scans = e.scanDeterminism()
+	}
+	if prop == "C01" || prop == "C02" || prop == "C03" || prop == "C04" || prop == "C05" || prop == "C11" {
+		scans = append(scans, e.scanAstImmutable())
+	}
 	bp := base.Props[prop]
 	var violations []*Obligation
 	var undecided, unbound []string
@@ -184,6 +191,16 @@ func cmdCheck(repo, verif, prop, tier string, timeout int, verbose bool) int {
 			unbound = append(unbound, ob.Name)
 		}
 		violations = append(violations, ob)
+	}
+	var scanViol []scanResult
+	for _, sr := range scans {
+		claimed++
+		if sr.OK {
+			discharged++
+			bySolver["scan"]++
+		} else {
+			scanViol = append(scanViol, sr)
+		}
 	}
 	// labelled obligations that were discharged on the pinned tree but are no longer generated
 	var missing []string
@@ -224,6 +241,13 @@ func cmdCheck(repo, verif, prop, tier string, timeout int, verbose bool) int {
 			"explanation": "a contract clause that was discharged on the pinned tree no longer binds to the code (function, loop or local renamed/removed); the property is undecided by proof"}, "", " ")
 		os.WriteFile(path, data, 0o644)
 		fmt.Printf("VIOLATION property=%s replay=%s obligation=%s result=unbound no-failing-input-found\n", prop, path, m)
+	}
+	for _, sr := range scanViol {
+		nviol++
+		path := filepath.Join(verif, "replays", prop, slug(sr.Name)+".json")
+		data, _ := json.MarshalIndent(map[string]interface{}{"property": prop, "obligation": sr.Name, "detail": sr.Detail}, "", " ")
+		os.WriteFile(path, data, 0o644)
+		fmt.Printf("VIOLATION property=%s replay=%s obligation=%s result=scan-failed no-failing-input-found\n", prop, path, sr.Name)
 	}
 	for _, l := range kfNew {
 		nviol++
